@@ -59,6 +59,31 @@ Definition geno_eqb (a b : geno) : bool :=
   && list_eqb (list_eqb call_eqb) (g_rows a) (g_rows b)
   && list_eqb Z.eqb (g_shape a) (g_shape b).
 
+(* ---- compact literals -----------------------------------------------------------
+   The harness does not spell out long regular lists (the interned names of 300 samples,
+   the 255 alleles of a repeat-like variant, a row of 65537 calls in a few runs, hundreds
+   of variants at regular distances): it writes them with these three functions.
+   C07_Proofs: zrange_length / zrange_nth, rle_single / rle_app, vrun_length / vrun_nth. *)
+
+Fixpoint zrange_fuel (fuel : nat) (a : Z) : list Z :=
+  match fuel with O => [] | S f => a :: zrange_fuel f (a + 1) end.
+(* [a; a+1; ...; a+n-1] *)
+Definition zrange (a n : Z) : list Z := zrange_fuel (Z.to_nat n) a.
+
+(* run-length decoding: [(3, x); (2, y)] = [x; x; x; y; y] *)
+Definition rle {A} (runs : list (Z * A)) : list A :=
+  flat_map (fun r => repeat (snd r) (Z.to_nat (fst r))) runs.
+
+Fixpoint vrun_fuel (fuel : nat) (id chrom pos step : Z) (alleles : list Z) (reflen : Z) : list variant :=
+  match fuel with
+  | O => []
+  | S f => mkvar id chrom pos alleles reflen :: vrun_fuel f (id + 1) chrom (pos + step) step alleles reflen
+  end.
+(* n variants on one contig with consecutive (interned) IDs, positions pos, pos+step, ...,
+   the same alleles *)
+Definition vrun (id chrom pos step : Z) (alleles : list Z) (reflen n : Z) : list variant :=
+  vrun_fuel (Z.to_nat n) id chrom pos step alleles reflen.
+
 (* number of planes of the array that is written: 2 after check_phase, else 3 *)
 Definition planes (g : geno) : Z := nth 2 (g_shape g) 3.
 
@@ -156,6 +181,32 @@ Definition batch_ok (limit : Z) (b : batch) : bool :=
 (* PvarReader.get_max_allele_ct() of the PVAR that write_variants produced *)
 Definition max_allele_ct (vs : list variant) : Z :=
   fold_right (fun v m => Z.max (allele_ct v) m) 2 vs.
+
+(* ---- what is refused before anything is stored: positions and allele counts ------
+   GenotypesVCF.write and GenotypesPLINK.write_variants build every record with pysam's
+     new_record(start = pos - 1, stop = pos + len(REF) - 1, ...)
+   where pos is a numpy uint32 scalar: the arithmetic wraps modulo 2^32 and pysam converts
+   both numbers to C ints (OverflowError "value too large to convert to int" beyond
+   2^31 - 1; so position 0, whose start wraps to 2^32 - 1, is refused as well).
+   GenotypesPLINK.write then opens the .pvar it wrote with pgenlib.PvarReader, which refuses
+   (RuntimeError) a position of 2^31 - 1 ("Invalid POS") and more than 254 ALT alleles. *)
+Definition E_Overflow : Z := 7.
+Definition int_max : Z := 2147483647.
+Definition two32 : Z := 4294967296.
+
+Definition rec_start (v : variant) : Z := (v_pos v - 1) mod two32.
+Definition rec_stop (v : variant) : Z := ((v_pos v + v_reflen v) mod two32 - 1) mod two32.
+
+Definition pos_fits (v : variant) : bool := (rec_start v <=? int_max) && (rec_stop v <=? int_max).
+
+(* pgen = true: the target is PGEN (the PvarReader step follows the pysam step);
+   None = nothing is refused *)
+Definition write_guard (pgen : bool) (g : geno) : option Z :=
+  if forallb pos_fits (g_variants g) then
+    if pgen && (existsb (fun v => int_max <=? v_pos v) (g_variants g)
+                || (255 <? max_allele_ct (g_variants g)))
+    then Some E_Runtime else None
+  else Some E_Overflow.
 
 Record pfile := mkpf {
   pf_samples : list Z;          (* .psam *)
@@ -279,6 +330,14 @@ Section Libs.
   Definition pgen_roundtrip_model (legacy : bool) (cw cr : option Z) (g : geno) : res geno :=
     bind (pgen_write legacy cw g) (pgen_read legacy cr).
 
+  (* GenotypesPLINK.write as a whole: write_samples, write_variants (pysam), PvarReader, then
+     the writer *)
+  Definition pgen_write_g (legacy : bool) (cw : option Z) (g : geno) : res pfile :=
+    match write_guard true g with Some e => Err e | None => pgen_write legacy cw g end.
+
+  Definition pgen_roundtrip_g (legacy : bool) (cw cr : option Z) (g : geno) : res geno :=
+    bind (pgen_write_g legacy cw g) (pgen_read legacy cr).
+
   (* what pgenlib.PgenReader.read_alleles_and_phasepresent returns for every variant of
      the file, read directly (not through haptools) *)
   Definition pgen_raw (pf : pfile) : list (list scall) := map (map pload) (stored pf).
@@ -315,6 +374,13 @@ Section Libs.
 
   Definition vcf_roundtrip_model (legacy legacy0 : bool) (fmt : vfmt) (idx : vidx) (g : geno) : res geno :=
     vcf_read legacy legacy0 None (mkvd fmt idx (vcf_write g)).
+
+  (* GenotypesVCF.write as a whole: a record pysam refuses aborts the write *)
+  Definition vcf_write_g (g : geno) : res vfile :=
+    match write_guard false g with Some e => Err e | None => Ok (vcf_write g) end.
+
+  Definition vcf_roundtrip_g (legacy legacy0 : bool) (fmt : vfmt) (idx : vidx) (g : geno) : res geno :=
+    bind (vcf_write_g g) (fun f => vcf_read legacy legacy0 None (mkvd fmt idx f)).
 End Libs.
 
 (* ---- the concrete library behaviour observed with pgenlib 0.94 / cyvcf2 0.34,
